@@ -467,7 +467,7 @@ func runC03(r *Rand, tier string, o *Out) {
 		n = 25000
 	}
 	// corpus first
-	for _, s := range []string{"(cCi)", "[c]", "{Cs}", "(mi)", "[m]"} {
+	for _, s := range []string{"(cCi)", "[c]", "{Cs}", "(mi)", "[m]", "m", "m", "m"} {
 		t := parseSigT(s)
 		c03Case(r, o, t)
 		o.Count("case:corpus")
@@ -493,6 +493,16 @@ func c03Case(r *Rand, o *Out, t *sigT) {
 	res = o.Do("P", "rd.read "+hx([]byte(sig))+" "+hx(append(append([]byte{}, enc...), tail...)), true)
 	if res != fmt.Sprintf("ok %s rest=%d", hx(enc), len(tail)) {
 		o.Fail("signature-driven reader does not return the value's bytes: "+readerWhy(t), fmt.Sprintf("rd.read %s %s => %s", sig, hx(enc), res))
+	}
+	// 2b. a dynamic value directly inside a dynamic value: every level keeps its signature prefix in what
+	//     the reader returns (NewValue normalises that nesting, the reader must not)
+	if t.kind == 'm' {
+		wrapped := append(append(leBytes(4, 1), 'm'), enc...)
+		res = o.Do("P", "rd.read "+hx([]byte("m"))+" "+hx(append(append([]byte{}, wrapped...), tail...)), true)
+		if res != fmt.Sprintf("ok %s rest=%d", hx(wrapped), len(tail)) {
+			o.Fail("signature-driven reader does not return the value's bytes: dynamic value inside a dynamic value", fmt.Sprintf("rd.read m %s => %s", hx(wrapped), res))
+		}
+		o.Count("case:nested-dynamic")
 	}
 	// 3. reflection decoder recovers the value
 	res = o.Do("P", "dec.reflect "+hx([]byte(sig))+" "+hx(append(append([]byte{}, enc...), tail...)), true)
